@@ -89,7 +89,7 @@ theorem lazy_tick_cases (s : Layout) (w : Waiting) (acts : List Action) (T k : N
     (∃ n, decidesOn (cd w) acts.length k s.queue = some n ∧
       ((∃ a, tdPick acts n = some a ∧
           tickMain s =
-            match doAction FUEL { s with waiting := none, queue := evictSameCoord w (n - 1) s.queue }
+            match doAction FUEL { s with waiting := none, queue := evictTaps w n s.queue }
                 a w.coord 0 false w.layerStack with
             | .error e => .error e
             | .ok (s1, cu) => .ok (tapPost s1, cu)) ∨
@@ -115,7 +115,7 @@ theorem lazy_tick_cases (s : Layout) (w : Waiting) (acts : List Action) (T k : N
       rw [hw']
       simp only [Option.map_some, applyWaitingAction, waitingIntoTap, takeWaiting, Option.map_some,
         waitingDelay, f10, hta, f1, f6]
-      rw [evict_coord_congr (show (cd w).coord = w.coord from rfl)]
+      rw [evictTaps_coord_congr (show (cd w).coord = w.coord from rfl)]
       rfl
     · right
       exact ⟨he, by rw [hcr]⟩
